@@ -123,6 +123,8 @@ func (fx *fnExec) posInv(st *State, ht, a string) (pos, end, inv string, ok bool
 			}
 			ref, isNil, _, _ := refOf(v)
 			cp, ce := fx.gposOf(st, ref), fx.gendOf(st, ref)
+			cs = append(cs, or(isNil, not(eq(ref, a))))
+			note("child " + f.Name() + " is not the node itself")
 			cs = append(cs, or(isNil, fx.pfOf(st, ref)))
 			note("child " + f.Name() + " pf")
 			cs = append(cs, or(isNil, app("<=", gp, cp)))
